@@ -163,7 +163,15 @@ def _case(draw):
     strict = min((ssub, psub), key=lambda s: gen.BOUND[s])
     frac = ssub.startswith('float') and psub.startswith('float')
     xf = draw(gen.transforms(strict, ext, frac_ok=frac))
-    el = gen.apply_xf(kind, base, xf)
+    # an integer point array against a float shape whose coordinates no integer holds: the shape sits half a unit
+    # to the right of the integer lattice the points come from (no conversion of the shape to the points' subtype
+    # may make them meet)
+    half = ssub.startswith('float') and psub.startswith('int') and draw(st.booleans())
+
+    def mk(xf_):
+        e = gen.apply_xf(kind, base, xf_)
+        return gen.apply_xf(kind, e, {'m': 2, 'tx': 1, 'ty': 0, 'q': 2}) if half else e
+    el = mk(xf)
     u = gen.unit(xf)
     if psub.startswith('float'):
         step = u / 2
@@ -174,10 +182,10 @@ def _case(draw):
     if 'float32' in (ssub, psub) and fl:
         # float32 kernels multiply differences in float32: keep them exact
         mag = max(abs(v) for v in fl) + 4 * u
-        fractional = isinstance(step, float) or xf['q'] > 1
+        fractional = isinstance(step, float) or xf['q'] > 1 or half
         if mag > (gen.BOUND_F32_FRAC if fractional else gen.BOUND['float32']):
             xf = {'m': 1, 'tx': 0, 'ty': 0, 'q': 1}
-            el = gen.apply_xf(kind, base, xf)
+            el = mk(xf)
             u = 1
             step = 0.5 if psub.startswith('float') else 1
             fl = model.flat_coords(kind, el)
@@ -208,7 +216,7 @@ def _case(draw):
     return {'shape_kind': kind, 'shape_subtype': ssub, 'shape': el, 'point_subtype': psub, 'grid': grid,
             'points': [], 'missing_at': missing_at, 'inds': inds,
             'reback': draw(st.sampled_from(model.REBACKINGS)), 'preback': draw(st.sampled_from(model.REBACKINGS)),
-            'labels': labels + [f'q{xf["q"]}', 'scaled' if xf['m'] > 1 else 'scale1']}
+            'labels': labels + [f'q{xf["q"]}', 'scaled' if xf['m'] > 1 else 'scale1'] + (['int-points-vs-half-shifted-shape'] if half else [])}
 
 
 def strategy(tier):
